@@ -64,4 +64,64 @@ def dataclassInput (P : Prims) (E : Env) (fr fc : Flags) (v : V) : Outcome V :=
     else if fc.nec then .perr .typeError
     else toDict P E fc 0 d
 
+/-! ### `transform_dataclass` with instances of the class among the input (cls.py:615-630) -/
+
+/-- what `transform_dataclass` does with its input: return an object that already is an instance, or hand a
+value to `init_dataclass` -/
+inductive DcResult where
+  | instance (v : V)
+  | init (v : V)
+  deriving Repr
+
+/-- cls.py:615-630.  `isExact d` = `type(d) == cls`, `isInst d` = `isinstance(d, cls)`, `allowSub` =
+`Options.allow_subclasses` (of the running transformer).  The length check under no_data_loss comes
+*before* the look at the first item: several items never collapse, whatever they are. -/
+def dataclassStep (isExact isInst : V → Bool) (allowSub : Bool) (f : Flags) (v : V) : Outcome DcResult :=
+  let unwrapped : Outcome (V × Bool) :=
+    match v with
+    | .seq k _ xs =>
+      if (k == .list || k == .tuple) && !f.nec then
+        match xs with
+        | [] => .ok (v, false)
+        | x :: rest => if f.ndl && !rest.isEmpty then .perr .typeError else .ok (x, true)
+      else .ok (v, false)
+    | _ => .ok (v, false)
+  unwrapped >>= fun (d, fromList) =>
+    if fromList && isExact d then .ok (.instance d)
+    else if allowSub && isInst d then .ok (.instance d)
+    else .ok (.init d)
+
+/-! ### Union types: the stages of `LogicalType.logical_parse` built from the flags (rule.py:381-431) -/
+
+/-- `for con in args: try: return transformer(value, con) except Exception: collect` — the first member that
+converts; every exception class is caught, a hang is not -/
+def firstOk (g : Target → Outcome V) : List Target → Outcome (Option V)
+  | [] => .ok none
+  | t :: ts =>
+    match g t with
+    | .ok r => .ok (some r)
+    | .perr _ => firstOk g ts
+    | .escape _ => firstOk g ts
+    | .diverge => .diverge
+    | .unmodelled w => .unmodelled w
+
+/-- rule.py:381-431 over an abstract member converter `conv flags member value`:
+1. a value whose exact type is a member passes through; 2. unless both preferences are already set, every
+member is tried under both (the strict stage); 3. if neither is set, every member under no_data_loss;
+4. every member under the context's own flags; else the collected errors are raised (a ParseError). -/
+def unionParse (conv : Flags → Target → V → Outcome V) (f : Flags) (ts : List Target) (v : V) : Outcome V :=
+  if ts.any (fun t => typeEq v t) then .ok v else
+  (if !f.ndl || !f.nec then firstOk (fun t => conv ⟨true, true⟩ t v) ts else .ok none) >>= fun s2 =>
+  match s2 with
+  | some r => .ok r
+  | none =>
+    (if !f.ndl && !f.nec then firstOk (fun t => conv ⟨false, true⟩ t v) ts else .ok none) >>= fun s3 =>
+    match s3 with
+    | some r => .ok r
+    | none =>
+      firstOk (fun t => conv f t v) ts >>= fun s4 =>
+      match s4 with
+      | some r => .ok r
+      | none => .perr .typeError
+
 end Utv.C12M
